@@ -27,7 +27,7 @@ for k, v in sorted(col.items(), key=lambda kv: -kv[1]["count"]):
         continue
     if not e.get("replay"):
         fn = f"findings/{ID}/{(clause + '_' + key).replace('/', '-').replace(':', '_').replace('=', '-').replace(' ', '_')[:80]}.json"
-        body = {"property": ID, "check": check, "clause": clause, "key": key, "message": v["example"], "case": v["case"]}
+        body = {"property": ID, "check": v.get("check") or check, "clause": clause, "key": key, "message": v["example"], "case": v["case"]}
         json.dump(body, open("/verif/" + fn, "w"), indent=1)
         e["replay"] = fn
         print("attached replay:", k, v["count"])
